@@ -198,10 +198,25 @@ func fmtDouble(d float64) string {
 	return s
 }
 
+// int renders an integer literal, now and then zero-padded (IntConstant is a run of decimal
+// digits: 010 is ten).
+func (r *renderer) int(n int64) string {
+	s := strconv.FormatInt(n, 10)
+	if r.pick(6) != 0 {
+		return s
+	}
+	r.used["zero-padded-int"]++
+	pad := []string{"0", "00"}[r.pick(2)]
+	if n < 0 {
+		return "-" + pad + s[1:]
+	}
+	return pad + s
+}
+
 func (r *renderer) value(v *Value) string {
 	switch v.Kind {
 	case "int":
-		return strconv.FormatInt(v.I, 10)
+		return r.int(v.I)
 	case "double":
 		// plain or exponent notation (the latter only when it has a decimal point: see the
 		// known finding about "1e5")
@@ -239,7 +254,7 @@ func (r *renderer) value(v *Value) string {
 func (r *renderer) field(f Field, indent string) string {
 	var b strings.Builder
 	b.WriteString(r.doc(f.Doc, indent))
-	b.WriteString(indent + strconv.Itoa(f.ID) + r.sp(false) + ":" + r.sp(false))
+	b.WriteString(indent + r.int(int64(f.ID)) + r.sp(false) + ":" + r.sp(false))
 	if f.Req != "" {
 		b.WriteString(f.Req + r.sp(true))
 	}
@@ -296,7 +311,7 @@ func (r *renderer) decl(d *Decl, last bool) string {
 			b.WriteString(r.doc(ev.Doc, "  "))
 			b.WriteString("  " + ev.Name)
 			if ev.Explicit {
-				b.WriteString(r.sp(false) + "=" + r.sp(false) + strconv.Itoa(ev.Value))
+				b.WriteString(r.sp(false) + "=" + r.sp(false) + r.int(int64(ev.Value)))
 			}
 			b.WriteString(r.anns(ev.Ann) + r.sep() + r.nl())
 		}
@@ -390,7 +405,11 @@ func RenderFile(p *Program, fi int, lex []byte) (string, map[string]int) {
 		b.WriteString("include" + r.sp(true) + r.quote(rel) + r.eos(false))
 	}
 	for _, ns := range f.Namespaces {
-		b.WriteString("namespace" + r.sp(true) + ns.Scope + r.sp(true) + ns.Value + r.eos(false))
+		vendor := ""
+		if ns.Vendor != "" {
+			vendor = r.sp(false) + "(vendor" + r.sp(false) + "=" + r.sp(false) + r.quote(ns.Vendor) + ")"
+		}
+		b.WriteString("namespace" + r.sp(true) + ns.Scope + r.sp(true) + ns.Value + vendor + r.eos(false))
 	}
 	for i, d := range f.Decls {
 		b.WriteString(r.nl())
